@@ -169,7 +169,7 @@ func runC15(_ *testing.T, c c15Case) kit.Outcome {
 func TestC15_baseline(t *testing.T) {
 	kit.RequireMode(t, "std")
 	kit.Check(t, kit.Prop[c15Case]{
-		ID: "C15", Quick: 1500, Thor: 200_000,
+		ID: "C15", Quick: 5000, Thor: 200_000,
 		Rule: "RTT plateaus/steps (with jitter) on Vegas/Gradient; non-trivial = a step up after a low sample and a run of slower samples longer than half the staleness bound",
 		Gen:  genC15, Run: runC15,
 	})
